@@ -481,12 +481,14 @@ def terminators(ses, rep, funcs):
 
 
 SCENARIOS_EXTRA = {
-    "crash": ({"a.lua": clireplay.UNFORMATTED, "m.lua": CRASH.replace("\\n", "\n"), "n.lua": clireplay.UNFORMATTED, "z.lua": clireplay.UNFORMATTED},
-              ["--verify", "--num-threads", "1", "a.lua", "m.lua", "n.lua", "z.lua"],
-              lambda r: (None if "panicked" not in r["err"] else        # (no crashing input is known for the repaired tree: the scenario then says nothing)
+    # a worker that panics: the debug build overflows in the indent arithmetic for an absurd indent_width (no crashing INPUT is known for the repaired tree)
+    "crash": ({"a.lua": clireplay.UNFORMATTED, "huge/stylua.toml": "indent_width = 9223372036854775807\n", "huge/m.lua": "do\n\tdo\n\t\tdo\n\t\t\tlocal   a = 1\n\t\tend\n\tend\nend\n",
+               "n.lua": clireplay.UNFORMATTED, "z.lua": clireplay.UNFORMATTED},
+              ["--num-threads", "1", "a.lua", "huge", "n.lua", "z.lua"],
+              lambda r: (None if "panicked" not in r["err"] else        # (a build without overflow checks does not crash: the scenario then says nothing)
                          "a crash while formatting one file left other files unformatted" if any(
                   r["after"][k][0].decode() != clireplay.FORMATTED for k in ("a.lua", "n.lua", "z.lua")) else
-                  "crashing file was modified" if clireplay.changed(r, "m.lua", True) else
+                  "crashing file was modified" if clireplay.changed(r, "huge/m.lua", True) else
                   "exit status is %d, not 2" % r["rc"] if r["rc"] != 2 else None)),
 }
 SCENARIOS_EXTRA["dangling-symlink"] = (
